@@ -91,7 +91,10 @@ class PyFileSearcher(AbstractSearcher):
                     raise error.PySmiFileNotModifiedError()
 
                 else:
-                    raise error.PySmiFileNotFoundError('older file %s exists' % mibname, searcher=self)
+                    # (a left-over byte-code file does not make a newer
+                    # source file beside it any older)
+                    debug.logger & debug.flagSearcher and debug.logger('older file %s exists' % f)
+                    continue
 
             else:
                 debug.logger & debug.flagSearcher and debug.logger('bad magic in %s' % f)
